@@ -97,7 +97,7 @@ __CPROVER_assigns(g_remaining, g_str_len, g_stream_off, g_str_in_order, g_consum
 __CPROVER_ensures(__CPROVER_return_value && g_remaining == 0 && g_str_len == __CPROVER_old(g_remaining) && g_str_in_order)
 ;
 //@loop StringTraits_deserialize 1
-//@  __CPROVER_assigns(@l1@, @l2@, g_remaining, g_str_len, g_stream_off, g_str_in_order, g_consumed, g_skip_negative)
+//@  __CPROVER_assigns(@l1:data@, @l2:size@, g_remaining, g_str_len, g_stream_off, g_str_in_order, g_consumed, g_skip_negative)
 //@  __CPROVER_loop_invariant(g_str_in_order && g_str_len + g_remaining == __CPROVER_loop_entry(g_remaining) && g_stream_off == g_str_src_off + g_str_len && g_remaining <= __CPROVER_loop_entry(g_remaining))
 //@end
 size_t StringTraits_calculate_serialized_size(struct String *value)
